@@ -126,10 +126,147 @@ fn allowed_ref(list: &[String], peer: Ipv4Addr) -> bool {
     list.iter().filter_map(|e| parse_entry(e)).any(|(n, m)| u32::from(peer) & m == n)
 }
 
+fn allowed_ref_nonempty(list: &[String], peer: Ipv4Addr) -> bool {
+    list.iter().filter_map(|e| parse_entry(e)).any(|(n, m)| u32::from(peer) & m == n)
+}
+
 const ENTRIES: &[&str] = &["127.0.0.1", "127.0.0.5", "127.0.0.1/32", "127.0.0.0/30", "127.0.1.0/24", "127.1.0.0/16", "127.0.1.128/25", "10.0.0.0/8", "192.168.7.9", "::1/128", "127.0.0.0/8", "0.0.0.0/0"];
 const PEERS: &[[u8; 4]] = &[[127, 0, 0, 1], [127, 0, 0, 2], [127, 0, 0, 3], [127, 0, 0, 4], [127, 0, 0, 5], [127, 0, 1, 0], [127, 0, 1, 127], [127, 0, 1, 128], [127, 0, 1, 255], [127, 0, 2, 0], [127, 1, 0, 0], [127, 1, 255, 255], [127, 2, 0, 0], [127, 200, 3, 4]];
 
+/// Reference for IPv6 entries: (network, mask) — None for entries that cannot match an IPv6 peer.
+fn parse_entry6(e: &str) -> Option<(u128, u128)> {
+    let (ip, bits) = match e.split_once('/') {
+        Some((ip, b)) => (ip, b.parse::<u32>().ok()?),
+        None => (e, 128),
+    };
+    let ip: std::net::Ipv6Addr = ip.parse().ok()?;
+    if bits > 128 {
+        return None;
+    }
+    let mask = if bits == 0 { 0 } else { u128::MAX << (128 - bits) };
+    Some((u128::from(ip) & mask, mask))
+}
+
+const ENTRIES6: &[&str] = &["::1", "::1/128", "::/64", "::/127", "::2", "::2/127", "fe80::/10", "2001:db8::/32", "::/0", "::ffff:0:0/96", "0.0.0.0/8", "0.0.0.1", "0.0.0.0/0", "0.0.0.1/32", "127.0.0.1", "127.0.0.0/8", "10.0.0.0/8"];
+
+/// IPv6 listener ([::1]) and the IPv6 loopback as the peer: IPv6 entries are judged as IPv6 networks, IPv4 entries
+/// never contain an IPv6 peer.
+fn run_v6(a: &Args) -> Report {
+    rt::quiet_panics();
+    let mut rep = Report::new("C18", &a.leg, a.seed);
+    let mut r = Rng::new(a.shard_seed());
+    let v6: std::net::Ipv6Addr = "::1".parse().unwrap();
+    if TcpListener::bind((v6, 0)).is_err() {
+        rep.inconclusive("no IPv6 loopback in this environment");
+        return rep;
+    }
+    let exporters = a.budget(24, 2000);
+    let runtime = tokio::runtime::Builder::new_multi_thread().worker_threads(2).enable_all().build().expect("tokio runtime");
+    for _ in 0..exporters {
+        let nent = *r.pick(&[0usize, 1, 1, 1, 2, 3]);
+        let mut list: Vec<String> = Vec::new();
+        for _ in 0..nent {
+            list.push(r.pick(ENTRIES6).to_string());
+        }
+        let port = {
+            let l = TcpListener::bind((v6, 0)).unwrap();
+            l.local_addr().unwrap().port()
+        };
+        let dst = SocketAddr::new(std::net::IpAddr::V6(v6), port);
+        // half of the exporters listen on the unspecified IPv6 address: on a dual-stack host IPv4 clients reach that
+        // listener too (the socket reports them as ::ffff:a.b.c.d)
+        let dual = r.chance(1, 2);
+        let listen = if dual { SocketAddr::new(std::net::IpAddr::V6(std::net::Ipv6Addr::UNSPECIFIED), port) } else { dst };
+        let mut b = PrometheusBuilder::new().with_http_listener(listen);
+        let mut build_err = None;
+        for e in &list {
+            match b.add_allowed_address(e) {
+                Ok(nb) => b = nb,
+                Err(err) => {
+                    build_err = Some((e.clone(), format!("{}", err)));
+                    b = PrometheusBuilder::new();
+                    break;
+                }
+            }
+        }
+        let mut h = mix(list.len() as u64, 6);
+        for e in &list {
+            h = mix(h, crate::rt::fnv(e.as_bytes()));
+        }
+        if let Some((entry, err)) = build_err {
+            rep.case(h, true);
+            let plain = !entry.contains('/');
+            rep.violation(if plain { "C18:plain-ip-allowlist-entry-rejected" } else { "C18:cidr-allowlist-entry-rejected" }, jo! {"what" => "the builder rejected an allowlist entry written in a documented form (an IP address or a subnet)", "entry" => entry, "error" => err});
+            continue;
+        }
+        let built = runtime.block_on(async { b.build() });
+        let (rec, fut) = match built {
+            Ok(x) => x,
+            Err(e) => {
+                rep.inconclusive(format!("exporter build failed: {}", e));
+                continue;
+            }
+        };
+        let task = runtime.spawn(fut);
+        let mut ready = false;
+        for _ in 0..400 {
+            if TcpStream::connect(dst).is_ok() {
+                ready = true;
+                break;
+            }
+            std::thread::sleep(Duration::from_millis(5));
+        }
+        if !ready {
+            rep.inconclusive("exporter never accepted a probe connection");
+            task.abort();
+            continue;
+        }
+        let counter = rec.register_counter(&Key::from_name("scraped_total"), &MD);
+        let mut value = 0u64;
+        let expect_allowed = list.is_empty() || list.iter().filter_map(|e| parse_entry6(e)).any(|(n, m)| u128::from(v6) & m == n);
+        let desc = jo! {"listener" => if dual { "[::] (dual-stack)" } else { "[::1]" }, "allowlist" => J::A(list.iter().map(|e| J::s(e.clone())).collect())};
+        for _ in 0..(3 + r.usize(6)) {
+            let path = *r.pick(&["/", "/metrics", "/health", "/x?y=1"]);
+            counter.increment(2);
+            value += 2;
+            if dual && r.chance(2, 3) {
+                // an IPv4 client of the dual-stack listener: inside a listed network if an IPv4 entry contains its address
+                // (or an IPv6 entry contains the mapped form the socket reports)
+                let peer = Ipv4Addr::from(*r.pick(PEERS));
+                let mapped = u128::from(peer.to_ipv6_mapped());
+                let exp = list.is_empty() || allowed_ref_nonempty(&list, peer) || list.iter().filter_map(|e| parse_entry6(e)).any(|(n, m)| mapped & m == n);
+                let res = http_get(peer, SocketAddrV4::new(Ipv4Addr::new(127, 0, 0, 1), port), path);
+                if judge_ex(&mut rep, &list, exp, &peer.to_string(), ":ipv4-peer-of-dual-stack-listener", path, res, value, value, &desc) == Some(true) {
+                    break;
+                }
+                continue;
+            }
+            let res = (|| -> Result<Resp, String> {
+                let mut s = TcpStream::connect(dst).map_err(|e| format!("connect: {}", e))?;
+                s.set_read_timeout(Some(Duration::from_secs(10))).ok();
+                s.write_all(format!("GET {} HTTP/1.1\r\nHost: verif\r\nConnection: close\r\n\r\n", path).as_bytes()).map_err(|e| format!("write: {}", e))?;
+                let mut buf = Vec::new();
+                s.read_to_end(&mut buf).map_err(|e| format!("read: {}", e))?;
+                parse_response(&buf)
+            })();
+            if judge_ex(&mut rep, &list, expect_allowed, "::1", ":ipv6-peer", path, res, value, value, &desc) == Some(true) {
+                break;
+            }
+        }
+        rep.case(h, !list.is_empty());
+        if rep.want_sample() {
+            rep.sample(jo! {"exporter" => desc, "ipv6_peer" => "::1", "ipv6_peer_expected_served" => expect_allowed});
+        }
+        task.abort();
+        drop(rec);
+    }
+    rep
+}
+
 pub fn run(a: &Args) -> Option<Report> {
+    if a.leg == "v6" {
+        return Some(run_v6(a));
+    }
     if a.leg != "native" {
         return None;
     }
@@ -299,7 +436,11 @@ pub fn run(a: &Args) -> Option<Report> {
 
 /// Judge one exchange; returns Some(true) if a violation was recorded.
 fn judge(rep: &mut Report, list: &[String], peer: Ipv4Addr, path: &str, res: Result<Resp, String>, before: u64, after: u64, desc: &J) -> Option<bool> {
-    let expect_allowed = allowed_ref(list, peer);
+    judge_ex(rep, list, allowed_ref(list, peer), &peer.to_string(), "", path, res, before, after, desc)
+}
+
+#[allow(clippy::too_many_arguments)]
+fn judge_ex(rep: &mut Report, list: &[String], expect_allowed: bool, peer: &str, class: &str, path: &str, res: Result<Resp, String>, before: u64, after: u64, desc: &J) -> Option<bool> {
     rep.count(if expect_allowed { "exchanges:peer-inside-allowlist" } else { "exchanges:peer-outside-allowlist" }, 1);
     let resp = match res {
         Ok(r) => r,
@@ -310,14 +451,14 @@ fn judge(rep: &mut Report, list: &[String], peer: Ipv4Addr, path: &str, res: Res
     };
     if !expect_allowed {
         if resp.status != 403 || !resp.body.is_empty() {
-            rep.violation("C18:outside-peer-not-forbidden", jo! {"what" => "a peer in none of the listed networks did not get 403 with an empty body", "status" => resp.status as u64, "body_len" => resp.body.len(), "peer" => peer.to_string(), "exporter" => desc.clone()});
+            rep.violation(format!("C18:outside-peer-not-forbidden{}", class), jo! {"what" => "a peer in none of the listed networks did not get 403 with an empty body", "status" => resp.status as u64, "body_len" => resp.body.len(), "peer" => peer.to_string(), "exporter" => desc.clone()});
             return Some(true);
         }
         return Some(false);
     }
     if resp.status != 200 {
         let single_host_entry = list.iter().any(|e| !e.contains('/') || e.ends_with("/32"));
-        rep.violation(if resp.status == 403 { "C18:inside-peer-forbidden" } else { "C18:unexpected-status" }, jo! {"what" => "a peer inside a listed network was not served 200", "status" => resp.status as u64, "peer" => peer.to_string(), "single_host_entries_present" => single_host_entry, "exporter" => desc.clone()});
+        rep.violation(if resp.status == 403 { format!("C18:inside-peer-forbidden{}", class) } else { "C18:unexpected-status".to_string() }, jo! {"what" => "a peer inside a listed network was not served 200", "status" => resp.status as u64, "peer" => peer.to_string(), "single_host_entries_present" => single_host_entry, "exporter" => desc.clone()});
         return Some(true);
     }
     if path == "/health" {
